@@ -480,11 +480,55 @@ func (w *World) checkReopened(r *Replica, h int64, origin string, props []string
 	w.logf("R %s %s h=%d app=%x", r.Name, origin, info.LastBlockHeight, info.LastBlockAppHash)
 }
 
+// openPendingForks recovers the crash images that are due: an image taken during block H whose recovered
+// node is to follow F blocks is opened when block H+F has been produced (or when the world ends), recovered
+// through the real handshake, fed the blocks up to there and closed again. One image is open at a time: an
+// application instance holds tens of megabytes of store caches and a block with 15 transactions yields some
+// fifty images.
 func (w *World) openPendingForks(h int64) {
-	for round := 0; round < 3 && len(w.pending) > 0; round++ {
-		w.openPendingRound(h)
+	w.processForks(h, false)
+}
+
+// finishForks: the world is over; whatever image is still waiting is recovered against the chain as it stands.
+func (w *World) finishForks() {
+	if len(w.pending) == 0 || len(w.Chain) == 0 {
+		return
 	}
+	// only blocks the producer itself completed (the last one in the chain may be the block it refused, e.g.
+	// the one that would have emptied the validator set)
+	h := int64(len(w.Chain))
+	if l := w.leader(); l != nil && l.State.LastBlockHeight < h {
+		h = l.State.LastBlockHeight
+	}
+	if h < 1 {
+		return
+	}
+	w.processForks(h, true)
+}
+
+func (w *World) processForks(h int64, all bool) {
+	var keep []*pendingFork
+	due := w.pending
 	w.pending = nil
+	for round := 0; round < 3 && len(due) > 0; round++ {
+		var now []*pendingFork
+		for _, pf := range due {
+			follow := int64(pf.Fault.Follow)
+			if follow <= 0 {
+				follow = 3
+			}
+			if !all && pf.Height+follow > h {
+				keep = append(keep, pf)
+				continue
+			}
+			now = append(now, pf)
+		}
+		w.pending = now
+		w.openPendingRound(h)
+		due = w.pending // images taken during those recoveries (crash during recovery)
+		w.pending = nil
+	}
+	w.pending = keep
 }
 
 func (w *World) openPendingRound(h int64) {
@@ -569,15 +613,24 @@ func (w *World) openPendingRound(h int64) {
 		got := r.State.LastBlockHeight
 		if got != pf.Height && got != pf.Height-1 {
 			w.violate("crash.height", []string{"C08"}, pf.Height, "%s: after recovery the node is at height %d", origin, got)
+			r.Close()
+			fr.R = nil
 			continue
 		}
 		if res := w.leader().Results[got]; res != nil && !bytes.Equal(r.State.AppHash, res.AppHash) {
 			w.violate("crash.apphash", []string{"C08"}, pf.Height, "%s: recovered at height %d with app hash %x, never-crashed node has %x", origin, got, r.State.AppHash, res.AppHash)
+			r.Close()
+			fr.R = nil
 			continue
 		}
 		w.Probes.Hit("crashrecovery.ok." + pc)
 		w.logf("K %s recovered at %d", origin, got)
 		w.followFork(fr, h)
+		if fr.R != nil {
+			fr.R.Close()
+			_ = removeAll(fr.R.Root)
+			fr.R = nil
+		}
 	}
 }
 
@@ -593,6 +646,9 @@ func (w *World) followFork(f *forkRep, h int64) {
 		if err != nil {
 			if pe, ok := err.(*PanicError); ok {
 				w.violate("crash.follow-panic", []string{"C08"}, nh, "%s: applying block %d afterwards panics: %s @ %s", f.Origin, nh, pe.Val, pe.Stack)
+			} else if strings.Contains(err.Error(), "would result in empty set") {
+				// the workload removed the last validator in that block (outside the statement); nothing to follow
+				w.Probes.Hit("valset.empty-attempt")
 			} else {
 				props := []string{"C08"}
 				if strings.Contains(err.Error(), "ValidatorsHash") {
@@ -621,6 +677,7 @@ func (w *World) retireForks(h int64) {
 		if f.R != nil && !f.R.closed && h >= f.Until {
 			f.R.Close()
 			_ = removeAll(f.R.Root)
+			f.R = nil // let the image's stores and application go (hundreds of images per world in the thorough tier)
 		}
 	}
 }
